@@ -76,6 +76,8 @@ def _job(job):
     name, text, seed = job
     r = random.Random('c06/%s/%s' % (seed, name))
     boost = r.random() < 0.5
+    if name.startswith('replay'):
+        boost = name.endswith('+boost')
     it = ml.impl_items(text)
     res = ml.impl_matlab([text], 'mod', [], boost)
     return name, text, boost, it, res
@@ -101,6 +103,10 @@ def run(rep, tier, seed, replay=None, proof_ok=True):
             if r[0] != 'ok':
                 rep.known('%s: %s [witness: %s]' % (f['id'], f['what_fails'], f['witness']))
     cases, stats = ml.gen_cases(tier, seed, 150, 4000, tag='c06')
+    if replay:
+        import json as _json
+        _t = _json.load(open(replay))['input']
+        cases, stats = [('replay', _t), ('replay+boost', _t)], {}
     rep.coverage['input_distribution'] = stats
     with mp.get_context('fork').Pool(14) as pool:
         results = pool.map(_job, [(n, t, seed) for n, t in cases], chunksize=2)
